@@ -22,16 +22,16 @@ WellFormed(r) ==
   ELSE IF r.m = "gyr" THEN Len(r.cloud) >= 2
   ELSE FALSE
 
-S2View(r, f) == [d |-> r.d, H |-> r.H, ppp |-> r.ppp, S |-> r.S, pos |-> r.fr[f], types |-> r.types, sig |-> r.sig,
-                 rn |-> r.rn, rd |-> r.rd, nd |-> r.nd]
+S2View(r, f) == S2Prep([d |-> r.d, H |-> r.H, ppp |-> r.ppp, S |-> r.S, pos |-> r.fr[f], types |-> r.types,
+                         sig |-> r.sig, rn |-> r.rn, rd |-> r.rd, nd |-> r.nd])
 ExpS2(r) ==
-  LET T == Len(r.fr)  n == Len(r.types) IN
-  [ contrib |-> [f \in 1..T |-> [i \in 1..n |-> S2Contrib(S2View(r, f), i)]],
-    tie     |-> [f \in 1..T |-> [i \in 1..n |-> S2Tie(S2View(r, f), i)]],
-    cls     |-> [f \in 1..T |-> [i \in 1..n |-> S2Class(S2View(r, f), i)]],
-    s2      |-> [f \in 1..T |-> [i \in 1..n |-> S2Term(S2View(r, f), i)]],
+  LET T == Len(r.fr)  n == Len(r.types)  P == [f \in 1..Len(r.fr) |-> S2View(r, f)] IN
+  [ contrib |-> [f \in 1..T |-> [i \in 1..n |-> S2Contrib(P[f], i)]],
+    tie     |-> [f \in 1..T |-> [i \in 1..n |-> S2Tie(P[f], i)]],
+    cls     |-> [f \in 1..T |-> [i \in 1..n |-> S2Class(P[f], i)]],
+    s2      |-> [f \in 1..T |-> [i \in 1..n |-> S2Term(P[f], i)]],
     g       |-> IF r.savegr
-                THEN [f \in 1..T |-> [i \in 1..n |-> [k \in 1..r.nd |-> S2GT(S2View(r, f), i, k)]]]
+                THEN [f \in 1..T |-> [i \in 1..n |-> [k \in 1..r.nd |-> S2GT(P[f], i, k)]]]
                 ELSE << >> ]
 
 ExpTetra(r) ==
